@@ -263,3 +263,89 @@ func TestGovcReplay(t *testing.T) {
 		},
 	}}, harnesses...)
 }
+
+func init() {
+	harnesses = append([]*harness{{
+		name:      "listener update refused for its TLS contexts replay (real connection handler: add, update with a broken certificate and another stream filter)",
+		modelFree: true,
+		match: func(o *Obligation) bool {
+			return strings.HasSuffix(o.Func, "server.(*connHandler).AddOrUpdateListener") && strings.Contains(o.Name, "refusedUpdateInstallsNothing")
+		},
+		run: func(eng *Engine, o *Obligation) *ReplayOutcome {
+			src := `package server
+
+import (
+	"context"
+	"fmt"
+	"sync/atomic"
+	"testing"
+
+	"mosn.io/api"
+	v2 "mosn.io/mosn/pkg/config/v2"
+	"mosn.io/mosn/pkg/configmanager"
+	"mosn.io/mosn/pkg/streamfilter"
+)
+
+// The failed obligation says: a listener update that is refused has already been installed in part. Replay on the real
+// connection handler: add a listener, send an update under the same name and address whose TLS context cannot be built
+// (a certificate that is no certificate) and which names another stream filter; the update is refused - then look at
+// what a new stream on the listener gets and at the stored configuration.
+var govcTlsStreamCreated int32
+
+type govcTlsStreamFilterFactory struct{}
+
+func (ff *govcTlsStreamFilterFactory) CreateFilterChain(context context.Context, callbacks api.StreamFilterChainFactoryCallbacks) {
+	atomic.AddInt32(&govcTlsStreamCreated, 1)
+}
+
+func init() {
+	api.RegisterStream("govc_tls_stream", func(conf map[string]interface{}) (api.StreamFilterChainFactory, error) {
+		return &govcTlsStreamFilterFactory{}, nil
+	})
+}
+
+func TestGovcReplay(t *testing.T) {
+	setup()
+	defer tearDown()
+	configmanager.Reset()
+
+	name := "govc_tls_listener"
+	cfg := baseListenerConfig("127.0.0.1:18481", name) // stream filters: mock_stream
+	if err := GetListenerAdapterInstance().AddOrUpdateListener(testServerName, cfg); err != nil {
+		fmt.Println("REPLAY-INCONCLUSIVE add listener failed:", err)
+		return
+	}
+	bad := baseListenerConfig("127.0.0.1:18481", name)
+	bad.StreamFilters = []v2.Filter{{Type: "govc_tls_stream"}}
+	bad.FilterChains[0].TLSContexts = []v2.TLSConfig{{Status: true, CertChain: "no certificate", PrivateKey: "no key"}}
+	if err := GetListenerAdapterInstance().AddOrUpdateListener(testServerName, bad); err == nil {
+		fmt.Println("REPLAY-INCONCLUSIVE the update was accepted")
+		return
+	}
+	stored := ""
+	configmanager.HandleMOSNConfig(configmanager.CfgTypeListener, func(v interface{}) {
+		if lns, ok := v.(map[string]v2.Listener); ok {
+			for _, f := range lns[name].StreamFilters {
+				stored += f.Type + ";"
+			}
+		}
+	})
+	atomic.StoreInt32(&govcTlsStreamCreated, 0)
+	f := streamfilter.GetStreamFilterManager().GetStreamFilterFactory(name)
+	if f == nil {
+		fmt.Println("REPLAY-INCONCLUSIVE no stream filter factory")
+		return
+	}
+	f.CreateFilterChain(context.Background(), nil)
+	if n := atomic.LoadInt32(&govcTlsStreamCreated); n != 0 {
+		fmt.Printf("REPLAY-CONFIRMED a listener update that was refused (its TLS context cannot be built) is live in part: a new stream on the listener gets the refused update's stream filter (created %d), the stored configuration says %q\n", n, stored)
+		return
+	}
+	fmt.Println("REPLAY-NOT-REPRODUCED the refused update changed nothing; stored:", stored)
+}
+`
+			out, _ := runOverlayTest("pkg/server", src, "^TestGovcReplay$")
+			return outcomeFromOutput(src, out)
+		},
+	}}, harnesses...)
+}
